@@ -239,6 +239,33 @@ def h_bookkeeping(e, cfg):
     return
 
 
+def h_late_assign(e, cfg):
+    """Constraints registered while storage is uninitialised (nothing to check them against yet), storage assigned afterwards:
+    a tensor reported valid / compatible satisfies EVERY registered constraint (also two dims that alias one axis)."""
+    from inferno.core.infrastructure import Module, ShapedTensor
+    strict = cfg["strict"]
+    m = Module()
+    ShapedTensor.create(m, "st", mk(cfg["storage"], ()), None, strict=strict, live=False)
+    st = m.st
+    prog = []
+    for step in range(cfg["len"]):
+        dim = e.choose(4) - 2                     # dims in [-2, 1]
+        size = [2, 3, 4][e.choose(3)]
+        prog.append((dim, size))
+        try:
+            st.reconstrain(dim, size)
+        except (ValueError, RuntimeError):
+            pass
+    cons = dict(st.constraints)
+    shape = [(2, 3), (2, 4), (3, 3), (3, 4), (4, 2)][e.choose(5)]
+    e.tag(program=str(prog), strict=strict, assigned=str(shape))
+    cand = torch.zeros(shape)
+    holds = constraints_hold(cand, cons, strict)
+    e.oblige("late:compatible-implies-constraints-hold", (not st.compatible(cand)) or holds, constraints=str(cons))
+    st.value = e.sym(shape, torch.float32, "X")
+    e.oblige("late:valid-implies-constraints-hold", (not st.valid) or holds, constraints=str(cons))
+
+
 def h_record_reconstrain(e, cfg):
     """Shape-constraint edits on a RecordTensor: observation dims shift by one; data tail preserved."""
     from inferno.core.infrastructure import Module, RecordTensor
@@ -314,12 +341,15 @@ def checks(tier):
                 for N in (2, 3):
                     rr.append(dict(shape=shape, dim=dim, size=size, N=N, ptr=N - 1))
     return [Check("single_setter", h_single, single, timeout_s=600), Check("setter_sequences", h_temporal, temporal, timeout_s=600),
-            Check("bookkeeping", h_bookkeeping, book, opts={"max_paths": 100000}, timeout_s=3000), Check("record_reconstrain", h_record_reconstrain, rr, timeout_s=600)]
+            Check("bookkeeping", h_bookkeeping, book, opts={"max_paths": 100000}, timeout_s=3000), Check("record_reconstrain", h_record_reconstrain, rr, timeout_s=600),
+            Check("late_assignment", h_late_assign, [dict(strict=sr, storage=stg, len=(3 if th else 2)) for sr in (True, False) for stg in ("none", "empty", "ubuf")],
+                  opts={"max_paths": 100000}, timeout_s=3000)]
 
 
 BOUNDS = {
     "quick": {"(dt,duration,inclusive)": "dt in {0.1,0.5,1.0,1.3} x duration in {0,0.3,1,2.5,3} x {F,T} with size <= 4; all single-setter changes; every 7th ordered pair for 3-setter sequences",
               "pointer": "{0,1,N-1}", "storage": ["buffer", "Parameter", "None", "empty(0)", "UninitializedBuffer", "UninitializedParameter"],
+              "late assignment": "all 2-call reconstrain programs on uninitialised storage (dims in [-2,1], sizes 2-4, strict / non-strict), then one of 5 shapes assigned",
               "bookkeeping programs": "all 2-call reconstrain programs, dims in [-rank, rank], sizes {None,1,2,3}, strict/non-strict, rank <= 2"},
     "thorough": {"sizes": "<= 6; every pointer; all ordered pairs", "bookkeeping programs": "3 calls for rank <= 2, 2 calls for rank 3; live on/off; Parameter storage"},
 }
